@@ -69,6 +69,10 @@ def cases(draw, sound, small=False):
     # (minpks, tol) entry for indexing.index as in its default argument
     if c["driver"] in ("score_all_pairs", "index") and ng * nrefl <= (400 if small else 1500):
         c["passes"] = draw(st.sampled_from([1, 2, 2, "rings+2"]))
+    if c["driver"] == "do_index":
+        # orientations generated from one ring only; or the same unitcell object used for an earlier run on the
+        # low-angle rings (ring tables shrink and grow again)
+        c["dohist"] = draw(st.sampled_from(["none", "single_forgen", "shared_unitcell", "shared_unitcell"]))
     return c
 
 
@@ -153,9 +157,9 @@ def check(case, rec=None):
     else:
         minpks = int(case["frac"] * nref)
     fails = []
-    where = "%s %s ng=%d nrefl=%d hkl_tol=%g cosine_tol=%g ds_tol=%g minpks=%s driver=%s passes=%s" % (
+    where = "%s %s ng=%d nrefl=%d hkl_tol=%g cosine_tol=%g ds_tol=%g minpks=%s driver=%s passes=%s%s" % (
         case["lattice"], sym, ng, nref, tol, case["cosine_tol"], case["ds_tol"], minpks, case["driver"],
-        case.get("passes", 1))
+        case.get("passes", 1), " do_index history: " + case["dohist"] if case.get("dohist", "none") != "none" else "")
     cImageD11.cimaged11_omp_set_num_threads(2)
     uc = unitcell.unitcell(cell, sym)
     passes = case.get("passes", 1)
@@ -199,9 +203,30 @@ def check(case, rec=None):
             probe = indexing.indexer(unitcell=uc, gv=gv, ds_tol=case["ds_tol"])
             probe.assigntorings()
             rings = [r for r in range(len(probe.unitcell.ringds)) if (probe.ra == r).sum() > 0]
+            forgen = rings[:6]
+            dohist = case.get("dohist", "none")
+            if dohist == "single_forgen":
+                Bm = gens.busing_levy_B(cell)
+                for rr in rings[:6]:
+                    hs = np.array(probe.unitcell.ringhkls[probe.unitcell.ringds[rr]], float) @ Bm.T
+                    hs /= np.linalg.norm(hs, axis=1)[:, None]
+                    cs = np.abs(hs @ hs.T)
+                    if (cs < 0.9).any():                  # the ring holds two directions that fix an orientation
+                        forgen = [rr]
+                        break
+            elif dohist == "shared_unitcell" and len(rings) >= 4:
+                low = rings[:max(2, len(rings) // 3)]
+                import io as _io, contextlib as _ctx
+                with _ctx.redirect_stdout(_io.StringIO()):
+                    ok, r = guard(indexing.do_index, cf, dstol=case["ds_tol"], hkl_tols=(tol,), fracs=(case["frac"],),
+                                  cosine_tol=abs(case["cosine_tol"]), max_grains=100, forgen=low[:2], foridx=low,
+                                  unitcell=uc, wavelength=0.3)
+                if not ok:
+                    return [exc_failure("indexing.do_index (low-angle rings first)", r)]
+                forgen = rings[len(low):][:6]              # now search from the rings beyond those
             # do_index computes minpks as frac * (sum of multiplicities * omega_range / 180)
             ok, r = guard(indexing.do_index, cf, dstol=case["ds_tol"], hkl_tols=(tol,), fracs=(case["frac"],),
-                          cosine_tol=abs(case["cosine_tol"]), max_grains=100, forgen=rings[:6], foridx=rings,
+                          cosine_tol=abs(case["cosine_tol"]), max_grains=100, forgen=forgen, foridx=rings,
                           unitcell=uc, wavelength=0.3)
             if not ok:
                 return [exc_failure("indexing.do_index", r)]
@@ -301,7 +326,8 @@ def check(case, rec=None):
         nt = ng >= 2 or not case["lattice"].startswith("cubic") or spur > 0.2
         rec.case(case, nt, ["sound" if case["sound"] else "complete", "lat:" + case["lattice"],
                             "driver:" + case["driver"]] + (["cosine_all_mode"] if case["cosine_tol"] < 0 else []) +
-                 (["second_pass"] if passes != 1 else []))
+                 (["second_pass"] if passes != 1 else []) +
+                 (["do_index:" + case["dohist"]] if case.get("dohist", "none") != "none" else []))
         rec.note("reported_ubis", len(ubis))
     return fails
 
